@@ -23,6 +23,9 @@ def mc(ctx, quick_cfgs, thorough_cfgs):
     for cfg in (quick_cfgs if not ctx.thorough else thorough_cfgs):
         ctx.tlc_mc("MC_ClientMux", f"MC_ClientMux_{cfg}.cfg", must_cover=["Register", "Write", "Take", "Recv", "Dispatch"], timeout=3000, heap="16g")
     ctx.tlc_mc("MC_ClientMux", "MC_ClientMux_drainfirst.cfg", expect_violation="WaiterHasFuture")
+    # forward_message: caller-chosen ids beside the client's own counter; rewinding the counter must violate DistinctIds
+    ctx.tlc_mc("MC_ClientMux", "MC_ClientMux_forward.cfg", must_cover=["AllocF", "Register", "Timeout", "Dispatch"])
+    ctx.tlc_mc("MC_ClientMux", "MC_ClientMux_rewind.cfg", expect_violation="DistinctIds")
     ctx.coverage["checker_cmd"] = "tlc -workers 8 -coverage 1 -config spec/MC_ClientMux_*.cfg spec/MC_ClientMux.tla"
 
 
